@@ -74,7 +74,10 @@ Fixpoint check_tree (n : net) (t : tree) : bool :=
           let nd := length (t_bids x) in
           Nat.eqb (length (t_shape x)) nd && Nat.eqb (length o) nd
           && list_eqb legeqb a (map (fun i => (tid, i)) (seq 0 nd))
-          && list_eqb Nat.eqb k (seq 0 nd)
+          (* idxout is a permutation of the legs and trackaxes its inverse (as built: both the
+             identity; after permute_axes: the permutation and its inverse) *)
+          && list_eqb Nat.eqb k (inv_perm o)
+          && forallb (fun ax => Nat.eqb (nth (nth ax k O) o nd) ax) (seq 0 nd)
       end
   | TNode _ l xl r xr o a k =>
       check_tree n l && check_tree n r && check_node n l xl r xr o a k
